@@ -116,6 +116,9 @@ def save_df_as_table(df: pd.DataFrame, path: str,
                      format_str: str = SETTINGS.table_export_format,
                      transpose: str = SETTINGS.table_export_transpose,
                      confirm_overwrite: bool = False) -> None:
+    if isinstance(path, (str, os.PathLike)):
+        # pandas expands "~", the overwrite check has to look at the same file.
+        path = os.path.expanduser(path)
     if confirm_overwrite and not user.check_and_confirm_overwrite(path):
         return
     if transpose:
